@@ -6,6 +6,7 @@ package decoder
 // Add-only: nothing here is compiled into normal builds.
 
 import (
+	"github.com/hashicorp/hcl-lang/decoder/internal/ast"
 	"github.com/hashicorp/hcl-lang/decoder/internal/schemahelper"
 	"github.com/hashicorp/hcl-lang/lang"
 	"github.com/hashicorp/hcl-lang/reference"
@@ -38,4 +39,14 @@ func VerifResolveBlockAddress(block *hcl.Block, blockSchema *schema.BlockSchema)
 // VerifAppendOrigins exposes appendOrigins (de-duplication of origins across one-of alternatives).
 func VerifAppendOrigins(origins, newOrigins reference.Origins) reference.Origins {
 	return appendOrigins(origins, newOrigins)
+}
+
+// VerifDecodeBody exposes ast.DecodeBody: the attributes and blocks of a native or JSON body.
+func VerifDecodeBody(body hcl.Body, bodySchema *schema.BodySchema) (hcl.Attributes, []*hcl.Block) {
+	content := ast.DecodeBody(body, bodySchema)
+	blocks := make([]*hcl.Block, 0, len(content.Blocks))
+	for _, b := range content.Blocks {
+		blocks = append(blocks, b.Block)
+	}
+	return content.Attributes, blocks
 }
